@@ -22,7 +22,7 @@ struct R { Ctx *cx = nullptr; int idx = 0; int kind = 0; struct evdns_request *h
 struct Delayed { bool tcp; int ns; struct sockaddr_in to; int conn; std::vector<uint8_t> bytes; };
 struct Ctx {
   Src *s; World *w; R r[MAXREQ]; int nreq = 0; bool base_freed = false; int freed_fail = -1; bool freed_in_cb = false; bool gai_pending_at_free0 = false;
-  int cb_depth = 0; std::vector<Delayed> delayed; bool k_tcp_uaf = false, k_rt_uaf = false, k_gai_leak = false, k_probe_uaf = false, k_gai_uaf = false, k_stall = false; bool ns_may_have_failed = false; bool closing = false; int maxinf = 0; bool followup_possible = false;
+  int cb_depth = 0; std::vector<Delayed> delayed; bool k_rt_uaf = false, k_gai_leak = false, k_probe_uaf = false, k_gai_uaf = false, k_stall = false; bool ns_may_have_failed = false; bool closing = false; int maxinf = 0; bool followup_possible = false;
   int n_timeouts = 0, n_tcp = 0, n_cancel = 0, n_incb = 0, n_retrans = 0, n_late = 0, n_search = 0, n_failover = 0;
 };
 Ctx *CX;
@@ -153,7 +153,6 @@ int serve(Ctx &cx, bool silent) {
     if (silent) continue;
     int act = s.below(10);   // 0 answer 1 NXDOMAIN 2 drop 3 SERVFAIL 4 REFUSED 5 NOTIMPL 6 TC 7 garbage 8 late answer 9 answer
     if (act == 9) act = 0;
-    if (it.tcp && (act == 3 || act == 4 || act == 5) && cx.k_tcp_uaf) { verif_known_skipped("asan:heap-use-after-free@client_tcp_read_packet_cb"); act = 1; }
     if (act == 6 && cx.maxinf && cx.k_stall) { verif_known_skipped("C34/inflight-limit-stall"); act = 1; }
     if (act == 6) cx.followup_possible = true;
     if (act == 6 && !it.tcp) { int o = owner_of(q); bool other = false; for (int k = 0; k < cx.nreq; k++) if (k != o && cx.r[k].live() && cx.r[k].tcp) other = true;
@@ -197,7 +196,6 @@ extern "C" int LLVMFuzzerTestOneInput(const uint8_t *data, size_t size) {
   verif_case_begin("C34");
   Src s(data, size);
   World w; Ctx cx; cx.s = &s; cx.w = &w; CX = &cx;
-  cx.k_tcp_uaf = verif_known("asan:heap-use-after-free@client_tcp_read_packet_cb");
   cx.k_rt_uaf = verif_known("asan:heap-use-after-free@retransmit_all_tcp_requests_for");
   cx.k_probe_uaf = verif_known("asan:heap-use-after-free@nameserver_probe_callback");
   cx.k_gai_uaf = verif_known("asan:heap-use-after-free@evdns_getaddrinfo_gotresolve");
